@@ -133,6 +133,16 @@ static int transcribe_items(binson_parser *p, binson_writer *w, int in_obj) {
     return p->error_flags == BINSON_ERROR_NONE;
 }
 
+static void garbage_fill(binson_parser *p, binson_state *st, int md, uint64_t gseed) {
+    uint64_t g = gseed * 2654435761ULL + 12345;
+    uint8_t *b = (uint8_t *)p; for (size_t i = 0; i < sizeof(binson_parser); i++) { g = g * 6364136223846793005ULL + 1442695040888963407ULL; b[i] = (uint8_t)(g >> 56); }
+    b = (uint8_t *)st; for (size_t i = 0; i < sizeof(binson_state) * (size_t)(md ? md : 1); i++) { g = g * 6364136223846793005ULL + 1442695040888963407ULL; b[i] = (uint8_t)(g >> 56); }
+}
+static unsigned garbage_flags0(int md, uint64_t gseed) {
+    binson_parser tmp; binson_state *st = malloc(sizeof(binson_state) * (size_t)(md ? md : 1));
+    garbage_fill(&tmp, st, md, gseed); unsigned f = st[0].flags; free(st); return f;
+}
+
 /* ---------- executing one op line ---------- */
 static char *tok[8]; static int ntok;
 static void split(char *line) { ntok = 0; char *s = strtok(line, " \t\r\n"); while (s && ntok < 8) { tok[ntok++] = s; s = strtok(NULL, " \t\r\n"); } }
@@ -158,10 +168,9 @@ static void exec_line(const char *line_in) {
     } else if (!strcmp(op, "P") && na >= 2) {
         /* new parser object over garbage memory: P <maxdepth> <gseed> [<flags0>] */
         free_p(k);
-        int md = atoi(arg[0]); uint64_t g = strtoull(arg[1], NULL, 10) * 2654435761ULL + 12345;
+        int md = atoi(arg[0]);
         o->md = md; o->p = malloc(sizeof(binson_parser)); o->st = malloc(sizeof(binson_state) * (size_t)(md ? md : 1));
-        uint8_t *b = (uint8_t *)o->p; for (size_t i = 0; i < sizeof(binson_parser); i++) { g = g * 6364136223846793005ULL + 1442695040888963407ULL; b[i] = (uint8_t)(g >> 56); }
-        b = (uint8_t *)o->st; for (size_t i = 0; i < sizeof(binson_state) * (size_t)(md ? md : 1); i++) { g = g * 6364136223846793005ULL + 1442695040888963407ULL; b[i] = (uint8_t)(g >> 56); }
+        garbage_fill(o->p, o->st, md, strtoull(arg[1], NULL, 10));
         o->p->state = o->st; o->p->max_depth = (uint_fast8_t)md;
         fprintf(fout, "P %d f%u\n", md, (unsigned)o->st[0].flags);
     } else if (!strcmp(op, "I") && na >= 2) {
@@ -387,7 +396,7 @@ static int gen_doc(Buf *o, int arr, int want_fault, int budget0) {
 
 static char *hexs(const uint8_t *b, size_t n) { char *s = malloc(2 * n + 2); if (n == 0) { strcpy(s, "-"); return s; } for (size_t i = 0; i < n; i++) sprintf(s + 2 * i, "%02x", b[i]); return s; }
 static int pick_md(void) { switch (rn(8)) { case 0: return 1; case 1: return 2; case 2: return 3; case 3: return 10; case 4: return 255; default: return 1 + (int)rn(12); } }
-static void new_parser(int k, int md) { emit("@%d P %d %u", k, md, rn(1000000)); }
+static void new_parser(int k, int md) { unsigned g = rn(1000000); emit("@%d P %d %u %u", k, md, g, garbage_flags0(md, g)); }
 static void init_doc(int k, int arr, Buf *d) { char *h = hexs(d->b, d->n); emit("@%d I %c %s", k, arr ? 'a' : 'o', h); free(h); }
 static const Name *pick_name(void) { return &NM[rn(NNM)]; }
 static void emit_field(int k, const char *op, const Name *nm, int ty) {
@@ -524,7 +533,7 @@ static void gen_stream(long id) {
     case_begin(id); new_parser(0, md); init_doc(0, arr, &D);
     if (last_ret) nav_ops(0, arr, 3 + (int)rn(25), 1, 0, 1, 0);
     emit("@0 gt");                                          /* final observation: error flag */
-    emit("@1 P %d %u", md, rn(1000000)); init_doc(1, arr, &D); emit("@1 v");
+    new_parser(1, md); init_doc(1, arr, &D); emit("@1 v");
 }
 static void gen_print(long id, int thorough) {
     int arr = chance(25); int fault = chance(15);
@@ -635,7 +644,7 @@ static void gen_reuse(long id) {
     emit("M a0"); for (int i = 0; i < ops2; i++) any_op(0); emit("M a1");
     (void)save;
     uint64_t s3 = S;
-    emit("@1 P %d %u", md, rn(1000000)); init_doc(1, arr, &D); if (how == 2) emit("@1 v");
+    new_parser(1, md); init_doc(1, arr, &D); if (how == 2) emit("@1 v");
     /* same op stream on the fresh object: re-derived from the same PRNG state */
     S = s2; emit("M b0"); for (int i = 0; i < ops2; i++) any_op(1); emit("M b1"); S = s3 ^ S;
 }
